@@ -64,6 +64,15 @@ def streams(rng, tier, boost):
             k = rng.randint(1, 3)
             sched = [[rng.randint(1, 8)] + rand_ops(rng, 1)[0] for _ in range(k)]
             out.append(('mid-stream-catcode', dict(base=0, ops=rand_ops(rng, rng.randint(0, 2)), s=s, sched=sched, via='tokenizer')))
+    # table algebra: every pair of successive assignments to one character (exhaustive), then random re-assignment histories
+    probe = [ord(c) for c in '@\\{}%^ \n\raM~|!#\x001$']
+    for k1 in range(16):
+        for k2 in range(16):
+            out.append(('table-reassign', dict(kind='table', ops=[[33, k1], [33, k2]], cs=probe)))
+            out.append(('table-reassign', dict(kind='table', ops=[[94, k1], [33, k1], [94, k2]], cs=probe)))
+    for i in range((300 if tier == 'quick' else 3000) * boost):
+        chars = [rng.choice([33, 94, 64]) for _ in range(rng.randint(2, 6))]
+        out.append(('table-reassign', dict(kind='table', ops=[[c, rng.randint(0, 15)] for c in chars], cs=probe)))
     # table algebra alone
     for i in range((200 if tier == 'quick' else 2000) * boost):
         out.append(('table-algebra', dict(kind='table', ops=rand_ops(rng, rng.randint(1, 10)),
